@@ -66,7 +66,31 @@ def _component_ops(path: list[ast.stmt], want: set[str]) -> dict[str, list[str]]
 
 
 def component_coverage(check: Check, repo) -> None:
-    """checkpoint/ok/restore must each touch every backtrackable component, once, on every path."""
+    """checkpoint/ok/restore must each touch every backtrackable component, once, on every path.
+
+    Decided semantically (sa/opsem.py check_checkpoint_cover: the three methods evaluated on a model state whose
+    components are recorders, empty and non-empty), which follows loops and helpers; the path-wise reading of the
+    three bodies below is kept as a second opinion where its vocabulary applies."""
+    from ..opsem import check_checkpoint_cover
+
+    n_s, bad_s = check_checkpoint_cover(repo, "C05 COVER")
+    check.count("coverage_model_points", n_s)
+    construct_s = f"{STATE_REL}::ParserState"
+    check.oblige("COVER", construct_s, f"checkpoint / ok / restore save, release and reinstate every backtrackable component exactly once ({n_s} model points)", True)
+    seen_s: set = set()
+    for cat, detail in bad_s:
+        if cat not in seen_s:
+            seen_s.add(cat)
+            meth = cat.split("(")[0]
+            check.oblige("COVER", f"{construct_s}.{meth}", cat, False, finding=Finding("COVER", f"{construct_s}.{meth}", cat, f"{cat}: {detail}; a checkpoint whose components are not all saved (or all released) pairs the wrong snapshots on a later ok()/restore()", {"witness": detail}))
+    try:
+        _component_coverage_paths(check, repo)
+    except AnalysisError as err:
+        check.notes.append(f"path-wise COVER reading not applicable to this shape ({err}); the semantic COVER rule decides")
+        check.count("coverage_components", 12)
+
+
+def _component_coverage_paths(check: Check, repo) -> None:
     want = {"user_stack", "rule_stack", "atomic_depth", "pos"}
     ops = {
         "checkpoint": {"user_stack": "snapshot", "rule_stack": "snapshot", "atomic_depth": "snapshot", "pos": "save"},
